@@ -3,6 +3,7 @@
    in `fmt : V -> str`.  Definitions only (lemmas: Proofs/LogP.v). *)
 From Coq Require Import ZArith List Bool.
 From Pymoto Require Import Base.Bytes Model.Grid.
+From Pymoto Require Export Model.Fs.
 Import ListNotations.
 Open Scope Z_scope.
 
@@ -84,7 +85,83 @@ Section Log.
     end.
 
   Definition log_file (st : lstate) : str := unlines (l_lines st).
+
+  (* ---- ScalarToFile on a file system with ANY previous content (Model/Fs.v) ---- *)
+  Record lmod := mkM { m_saveto : str; m_sep : str; m_iter : Z }.
+
+  (* _prepare: Path(saveto).parent.mkdir(parents=True, exist_ok=True); self.iter = 0; the csv rule *)
+  Definition log_new (fs : fsys) (saveto sep : str) : res lmod :=
+    match mkdir_parents fs saveto with
+    | Err e => Err e
+    | Ok _ => Ok (mkM saveto (separator saveto sep) 0)
+    end.
+
+  (* _response: the columns are formatted first (an exception leaves the files alone); at iteration 0 the file is
+     opened with "w+" -- whatever it held is gone -- for the header line; then it is opened with "a+" for the row *)
+  Definition log_response (fs : fsys) (m : lmod) (sigs : list (str * lval)) : res (fsys * lmod) :=
+    match all_cols sigs with
+    | Err e => Err e
+    | Ok cols =>
+      let sep := m_sep m in
+      let fs1 := if m_iter m =? 0
+                 then fs_open_w fs (m_saveto m) (join sep (s2z "Iteration" :: map fst cols) ++ [10])
+                 else fs in
+      let fs2 := fs_open_a fs1 (m_saveto m) (join sep (dec (m_iter m) :: map snd cols) ++ [10]) in
+      Ok (fs2, mkM (m_saveto m) sep (m_iter m + 1))
+    end.
+
+  (* a history of calls of ONE module instance without interference *)
+  Fixpoint log_fs_run (fs : fsys) (m : lmod) (calls : list (list (str * lval))) : res (fsys * lmod) :=
+    match calls with
+    | [] => Ok (fs, m)
+    | c :: rest => match log_response fs m c with Err e => Err e | Ok (fs', m') => log_fs_run fs' m' rest end
+    end.
+
+  (* histories of events: module instances are created (numbered 0, 1, .. in order of creation) and called in any
+     interleaving; the environment writes and removes files in between *)
+  Inductive levent :=
+  | LNew (saveto sep : str)
+  | LCall (id : nat) (sigs : list (str * lval))
+  | LWrite (name content : str)
+  | LRemove (name : str).
+
+  Fixpoint lset_nth {A} (l : list A) (k : nat) (x : A) : list A :=
+    match l, k with
+    | [], _ => []
+    | _ :: t, O => x :: t
+    | y :: t, S k' => y :: lset_nth t k' x
+    end.
+
+  Definition lworld := (fsys * list lmod)%type.
+  Definition log_event (w : lworld) (e : levent) : res lworld :=
+    let (fs, mods) := w in
+    match e with
+    | LNew saveto sep => match log_new fs saveto sep with Err x => Err x | Ok m => Ok (fs, mods ++ [m]) end
+    | LCall id sigs =>
+      match nth_error mods id with
+      | None => Err OtherError
+      | Some m => match log_response fs m sigs with Err x => Err x | Ok (fs', m') => Ok (fs', lset_nth mods id m') end
+      end
+    | LWrite name content => Ok (fs_open_w fs name content, mods)
+    | LRemove name => Ok (fs_remove fs name, mods)
+    end.
+
+  (* the file system after every event; the history stops at the first exception, whose class is reported (0: none);
+     the failing event leaves the files as they were (last entry of the trace) *)
+  Fixpoint log_trace (w : lworld) (events : list levent) : list fsys * Z :=
+    match events with
+    | [] => ([], 0)
+    | e :: rest =>
+      match log_event w e with
+      | Err x => ([fst w], exn_code x)
+      | Ok w' => let (tr, code) := log_trace w' rest in (fst w' :: tr, code)
+      end
+    end.
 End Log.
 
 Arguments LNum {V} v.
 Arguments LArr {V} shape data forder.
+Arguments LNew {V} saveto sep.
+Arguments LCall {V} id sigs.
+Arguments LWrite {V} name content.
+Arguments LRemove {V} name.
